@@ -559,6 +559,14 @@ def external(it, qual: str):
             return Builtin("chain", lambda *xs: [y for x in xs for y in it.iterate(x)])
         if name == "count":
             return Builtin("itertools.count", lambda start=0, step=1: Counter(start, step))
+    if mod == "textwrap" and name == "dedent":
+        import textwrap as _tw
+
+        def dedent(s):
+            if not isinstance(s, str):
+                raise Unsupported("textwrap.dedent of a symbolic string")
+            return _tw.dedent(s)
+        return Builtin("textwrap.dedent", dedent)
     if mod == "copy":
         if name in ("copy",):
             return Builtin("copy.copy", lambda o: shallow_copy(it, o))
